@@ -46,6 +46,8 @@ type Table struct {
 
 	// an internal forward: the handler of the next request dispatches Forward on the same Mux (a nested ServeHTTP
 	// call, as a handler does that rewrites and re-dispatches) before it looks at its own Store
+	noRouteGen int // how often the no-route handler has been replaced
+
 	Forward *http.Request
 	Inner   Obs
 	InnerP  any
@@ -62,8 +64,23 @@ func (w *nullWriter) Header() http.Header {
 func (w *nullWriter) Write(b []byte) (int, error) { return len(b), nil }
 func (w *nullWriter) WriteHeader(int)             {}
 
-func (t *Table) record(idx int) httpd.HandlerFunc {
+// StaleNoRoute is the Route value observed when a no-route handler that has since been replaced was invoked.
+const StaleNoRoute = -3
+
+// ReplaceNoRoute installs a new no-route handler (HandleNoRoute may be called at any time): from now on unmatched
+// requests must reach this one.
+func (t *Table) ReplaceNoRoute() {
+	t.noRouteGen++
+	t.Mux.HandleNoRoute(t.recordGen(-1, t.noRouteGen))
+}
+
+func (t *Table) record(idx int) httpd.HandlerFunc { return t.recordGen(idx, 0) }
+
+func (t *Table) recordGen(idx int, gen int) httpd.HandlerFunc {
 	return func(s *httpd.Store) {
+		if idx == -1 && gen != t.noRouteGen {
+			idx = StaleNoRoute
+		}
 		o := t.Cur
 		if fw := t.Forward; fw != nil {
 			t.Forward = nil
@@ -211,6 +228,9 @@ func Expect(routes []rm.Route, names []string, method, path string) (Obs, rm.Tra
 func Diff(got, want Obs) string {
 	if got.Calls != want.Calls {
 		return fmt.Sprintf("handler invocations = %d, want %d", got.Calls, want.Calls)
+	}
+	if got.Route == StaleNoRoute {
+		return fmt.Sprintf("a no-route handler that had been replaced by a later HandleNoRoute call was invoked (want route index %d)", want.Route)
 	}
 	if got.Route != want.Route {
 		return fmt.Sprintf("selected route index = %d, want %d", got.Route, want.Route)
